@@ -478,7 +478,7 @@ func checkDate(cs *Case, o *obs) []Problem {
 		key = "date:calendar-day:query-literal-with-own-offset"
 	case dayLen != 24*time.Hour && !t.Before(minT(end, assumedEnd)) && t.Before(maxT(end, assumedEnd)):
 		// the instant lies between the true end of the day and start+24h
-		key = "date:calendar-day:instant-between-day-end-and-start+24h:day-length=" + fmtDur(dayLen)
+		key = "date:calendar-day:instant-between-day-end-and-start+24h:" + dayClass(dayLen)
 	case noMidnight:
 		// the day starts after a clock gap at local midnight; the literal class tells which
 		// conversion meets the missing midnight
@@ -499,6 +499,17 @@ func checkDate(cs *Case, o *obs) []Problem {
 		key = fmt.Sprintf("date:calendar-day:%s:ops=%s:day-length=%s:query=%s", where, strings.Join(ops, ","), fmtDur(dayLen), cs.QKind)
 	}
 	return append(ps, Problem{Key: key, What: "dates must be compared by calendar day in the environment's timezone\n" + desc})
+}
+
+// dayClass folds the length of a day into shorter/longer than 24 h (23 h, 23 h 30 min... are one class).
+func dayClass(d time.Duration) string {
+	switch {
+	case d < 24*time.Hour:
+		return "day-shorter-than-24h"
+	case d > 24*time.Hour:
+		return "day-longer-than-24h"
+	}
+	return "day-of-24h"
 }
 
 func isLocalMidnight(t time.Time, loc *time.Location) bool {
